@@ -46,7 +46,7 @@ TRUSTED = ['pint `str(quantity)` / `units(...)` (hypotheses of the round-trip th
 ASSUMPTIONS = [
     'nesting depth below orjson\'s recursion limit (254)',
     'quantity magnitudes are scalars or 1-d arrays (a 2-d array magnitude does NOT round-trip: '
-    'candidate finding, see notes/C14.md)',
+    'out-of-quantifier note C, see notes/C14.md)',
     'vivarium.library.units.Quantity(...) instances (class differs from type(1 * units.fg)) are not '
     'generated: serialize_value rejects them (out-of-quantifier note D in notes/C14.md)',
 ]
